@@ -94,4 +94,31 @@ theorem source_replacement_independent_of_content (v1 v2 : List Char) (lk1 lk2 :
   · rw [source_anonymize_value]; simp [anonymizeValue, e1, r1, n1, ha1]
   · rw [source_anonymize_value]; simp [anonymizeValue, e2, r2, n2, ha2]
 
+/-! ## `replace_matching_item` as written in the source -/
+
+/-- **`replace_matching_item` of the source is the model's `replaceMatchingItem`** (same output line, same lookup table, same
+WARNING records) for every table of pattern groups, salt, line and lookup table: the line is split and re-joined, its enclosing
+text set aside, the groups are tried in order, the first group with a match wins, every pattern of that group is applied to what the
+previous one wrote, a `None` index scrubs and ends the group, otherwise `prefix + _anonymize_value(group n)` replaces every match. -/
+theorem source_replace_matching_item (groups : List (List ((Regex.Re × Option Nat × Option Nat) × String))) (input : List Char)
+    (lk : Lookup) :
+    Src.replace_matching_item x fs groups input salt lk =
+      (match replaceMatchingItem x fs groups salt input lk with
+       | .error e => .error e
+       | .ok (out, lk', logs) => .ok ((out, logs), lk')) := by
+  rw [SrcTie.replace_matching_item_tie]
+  cases replaceMatchingItem x fs groups salt input lk with
+  | error e => rfl
+  | ok r => obtain ⟨a, b, c⟩ := r; rfl
+
+/-- **C07 on the source**: a line that no pattern of any group matches leaves the lookup table as it was and emits no record (the
+secret stage has no other way to learn or to log anything) -/
+theorem source_no_match_no_state_change (groups : List (List ((Regex.Re × Option Nat × Option Nat) × String))) (input : List Char)
+    (lk : Lookup) (out : List Char) (logs : List LogRec) (lk' : Lookup)
+    (h : Src.replace_matching_item x fs groups input salt lk = .ok ((out, logs), lk'))
+    (hm : replaceMatchingItem x fs groups salt input lk = .ok (out, lk, [])) : lk' = lk ∧ logs = [] := by
+  rw [source_replace_matching_item, hm] at h
+  simp only [Except.ok.injEq, Prod.mk.injEq] at h
+  exact ⟨h.2.symm, h.1.2.symm⟩
+
 end Netconan.Props.SrcSecrets
